@@ -59,7 +59,10 @@ SPELLINGS = [
     ('sub/.', '/v/d/sub', 'dot'), ('sub/..', '/v/d', 'dot'), ('sub/./', '/v/d/sub', 'dot'),
     ('./.', '/v/d', 'dot'), ('/v/d/.', '/v/d', 'dot'), ('sub/../', '/v/d', 'dot'),
     ('/v/n', '/v/n', 'mount'), ('/v/n/', '/v/n', 'mount'), ('../n', '/v/n', 'mount'),
+    # the mount point reached through a symlinked parent directory / through a symlink to it, spelled with a slash
+    ('lv/n', '/v/n', 'mount'), ('/h/lv/n/', '/v/n', 'mount'), ('/v/d/ln/', '/v/n', 'mount'),
 ]
+NSP = len(SPELLINGS)
 MODES = [([], []), (['-f'], []), (['-i'], ['y']), (['-i'], ['n']), (['-i'], ['']), (['-i'], []),
          (['-i'], ['Yes']), (['-f', '-i'], ['no'])]
 TRASHDIR_OPT = [None, '/v/td', '/h/td']
@@ -95,7 +98,8 @@ def make_world(kind, top, alt, pre):
              W.l('/v/lp', '/v/d', 901), W.f('/v/n/inner', 'INNER', 0o644, 902), W.d('/v/n/nd'),
              W.f('/v/n/nd/deep', 'DEEP', 0o644, 903),
              W.f('/v/out/target.txt', 'TARGET', 0o644, 904), W.f('/v/out/tdir/t', 'T', 0o644, 905),
-             W.f('/v/d/other', 'OTHER', 0o644, 906)]
+             W.f('/v/d/other', 'OTHER', 0o644, 906),
+             W.l('/v/d/lv', '/v', 917), W.l('/h/lv', '/v', 918), W.l('/v/d/ln', '/v/n', 919)]
     nodes += entry_nodes(kind, '/v/d/' + name)
     ts = TOP_STATES[top]
     tdirs = []
@@ -218,7 +222,16 @@ def oracle(results, arg, target, family, label):
                                'arg %r (%s) was trashed as %r instead of being refused' % (arg, family, w))
             return rt.ok()
     kind = 'reported-failure' if failed else 'reported-success'
-    return rt.fail('C01:half-trashed:%s:%s:%s' % (family, kind, label),
+    # what kind of half-way state: is every byte still somewhere?
+    src_now = scen.sub(after, target)
+    if where or relinked:
+        sub = 'copy-left-in-trash:' + ('source-intact' if src_now == payload else 'source-partly-deleted' if src_now is not None else 'source-gone')
+    else:
+        leaves = [(q, v) for q, v in W.flatten(payload).items() if v[0] != 'd']
+        have = [v for q, v in W.flatten(after).items() if v[0] != 'd']
+        lost = [q for q, v in leaves if v not in have and not (v[0] == 'l' and any(h[0] == 'l' and h[1] == v[1] for h in have))]
+        sub = 'data-lost' if lost else 'split'
+    return rt.fail('C01:half-trashed:%s:%s:%s:%s' % (sub, family, kind, label),
                    'arg %r: neither trashed nor untouched; exit=%r exc=%r removed=%r added=%r stderr=%r' % (
                        arg, res['exit'], res['exc'], sorted(removed)[:6], sorted(added)[:8], res['err'][-300:]))
 
@@ -234,10 +247,10 @@ def _case(kind, sp, mode, td, fb, top, alt, pre, verbose):
 
 def w_spell(kind: int, sp: int, mode: int) -> str:
     """
-    pre: 0 <= kind < 6 and 0 <= sp < 22 and 0 <= mode < 8
+    pre: 0 <= kind < 6 and 0 <= sp < NSP and 0 <= mode < 8
     post: _ == ''
     """
-    return _case(rt.sel(kind, 6), rt.sel(sp, 22), rt.sel(mode, 8), 0, 0, 0, 0, 0, 0)
+    return _case(rt.sel(kind, 6), rt.sel(sp, NSP), rt.sel(mode, 8), 0, 0, 0, 0, 0, 0)
 
 
 def w_dirs(kind: int, top: int, alt: int, pre: int, sp: int) -> str:
@@ -259,19 +272,19 @@ def w_opts(kind: int, td: int, fb: int, alt: int, verbose: int, sp: int) -> str:
 def w_full_opts(kind: int, sp: int, mode: int, td: int, fb: int) -> str:
     """
     pre: PARTITION is None or kind == PARTITION
-    pre: 0 <= kind < 6 and 0 <= sp < 22 and 0 <= mode < 8 and 0 <= td < 3 and 0 <= fb < 4
+    pre: 0 <= kind < 6 and 0 <= sp < NSP and 0 <= mode < 8 and 0 <= td < 3 and 0 <= fb < 4
     post: _ == ''
     """
-    return _case(rt.sel(kind, 6), rt.sel(sp, 22), rt.sel(mode, 8), rt.sel(td, 3), rt.sel(fb, 4), 5, 0, 0, 0)
+    return _case(rt.sel(kind, 6), rt.sel(sp, NSP), rt.sel(mode, 8), rt.sel(td, 3), rt.sel(fb, 4), 5, 0, 0, 0)
 
 
 def w_full_dirs(kind: int, sp: int, fb: int, top: int, alt: int, pre: int) -> str:
     """
     pre: PARTITION is None or kind == PARTITION
-    pre: 0 <= kind < 6 and 0 <= sp < 22 and 0 <= fb < 4 and 0 <= top < 6 and 0 <= alt < 3 and 0 <= pre < 9
+    pre: 0 <= kind < 6 and 0 <= sp < NSP and 0 <= fb < 4 and 0 <= top < 6 and 0 <= alt < 3 and 0 <= pre < 9
     post: _ == ''
     """
-    return _case(rt.sel(kind, 6), rt.sel(sp, 22), 0, 0, rt.sel(fb, 4), rt.sel(top, 6), rt.sel(alt, 3), rt.sel(pre, 9), 0)
+    return _case(rt.sel(kind, 6), rt.sel(sp, NSP), 0, 0, rt.sel(fb, 4), rt.sel(top, 6), rt.sel(alt, 3), rt.sel(pre, 9), 0)
 
 
 PUT_FUNCS = ['trashcli.put.main.main', 'TrashPutCmd.run_put', 'Parser.parse_args', 'Context.trash_each',
@@ -291,7 +304,7 @@ def obligations(tier):
            encodes=['trashcli.put.core.trashee.should_skipped_by_specs'],
            bounds='path: any str, len <= %d' % (6 if tier == 'quick' else 10), outside='longer strings'),
         CH('W_spelling_x_kind_x_mode', MOD, 'w_spell', timeout=600, engine='W', regime='selector',
-           encodes=PUT_FUNCS, stubs=STUBS, bounds='6 kinds x 22 spellings x 8 mode/reply combinations; default options'),
+           encodes=PUT_FUNCS, stubs=STUBS, bounds='6 kinds x %d spellings x 8 mode/reply combinations; default options' % NSP),
         CH('W_trashdir_states', MOD, 'w_dirs', timeout=900, engine='W', regime='selector',
            encodes=PUT_FUNCS, stubs=STUBS, bounds='6 kinds x 6 .Trash states x 3 .Trash-uid states x 9 pre-existing (incl. 250-byte names with an orphan on the truncated name, names ending in .trashinfo) x 3 spellings'),
         CH('W_options', MOD, 'w_opts', timeout=900, engine='W', regime='selector',
@@ -300,8 +313,8 @@ def obligations(tier):
     if tier == 'thorough':
         obs.append(CH('W_spelling_mode_trashdir_fallback', MOD, 'w_full_opts', timeout=3000, partitions=list(range(6)), twin=False, engine='W',
                       regime='selector', encodes=PUT_FUNCS, stubs=STUBS,
-                      bounds='6 kinds x 22 spellings x 8 modes x 3 --trash-dir x 4 fallback switches (12672 cases)'))
+                      bounds='6 kinds x %d spellings x 8 modes x 3 --trash-dir x 4 fallback switches' % NSP))
         obs.append(CH('W_spelling_fallback_dirstates', MOD, 'w_full_dirs', timeout=6000, partitions=list(range(6)), twin=False, engine='W',
                       regime='selector', encodes=PUT_FUNCS, stubs=STUBS,
-                      bounds='6 kinds x 22 spellings x 4 fallback x 6 .Trash x 3 .Trash-uid x 9 pre-existing states (85536 cases)'))
+                      bounds='6 kinds x %d spellings x 4 fallback x 6 .Trash x 3 .Trash-uid x 9 pre-existing states' % NSP))
     return obs
